@@ -60,7 +60,7 @@ def run(ctx):
     bm, bvals = genmod.boundary_module(ctx.rng, ctx.quick)
     xm, xvals = genmod.ext64_module(ctx.rng)       # extension indexes / bitmap lengths from 64 on (F29 / F64 repaired)
     fixedvals = {id(bm): bvals, id(xm): xvals}
-    tg = genmod.tagged_member_modules(big=False)            # tagged SEQUENCE OF / SET OF elements, EXPLICIT tags on own-descriptor members (F122 / F49 repaired)
+    tg = genmod.tagged_member_modules()            # unsigned long from 2^63 on under XER too (F125 repaired); tagged SEQUENCE OF / SET OF elements, EXPLICIT tags on own-descriptor members (F122 / F49 repaired)
     fixedvals.update({id(m): v for m, v in tg})
     al = [genmod.alias_module(td) for td in (None, "AUTOMATIC")]     # type assignments that reference / tag another type (F38 / F123 / F111 / F46 repaired)
     fixedvals.update({id(m): v for m, v in al})
